@@ -166,7 +166,7 @@ impl Property for C11 {
     const ID: &'static str = "C11";
 
     fn rule() -> String {
-        "proptest-generated containers with 1-3 content packs in separate files (main pack through TwoFiles/NoConcat, extra packs always, OneFile with >=1 extra), contents distributed over all packs, directory entries pointing at real contents; for EVERY non-empty subset of the separate packs and every kind of unavailability {file deleted, replaced by a directory, replaced by a different valid container holding another uuid, replaced by a different valid bare content pack} (plus one mixed assignment). Oracle: Container::new succeeds; every entry equals the model; a content of an available pack reads to its bytes; a content of an unavailable pack answers MISSING whose pack id, uuid and location equal the manifest's (independent decoder) - not an error, a panic or bytes; get_pack(id > max) is None; check() is Ok(true). Non-trivial = a scenario with at least one pack unavailable and one available, both holding contents that are read; distinct by (packaging, pack count, subset, kind).".into()
+        "proptest-generated containers with 1-3 content packs in separate files (main pack through TwoFiles/NoConcat, extra packs always, OneFile with >=1 extra), contents distributed over all packs, directory entries pointing at real contents; for EVERY non-empty subset of the separate packs and every kind of unavailability {file deleted, replaced by a directory, replaced by a different valid container holding another uuid, replaced by a different valid bare content pack} (plus one mixed assignment). Oracle: Container::new succeeds; every entry equals the model; a content of an available pack reads to its bytes; a content of an unavailable pack answers MISSING whose pack id, uuid and location equal the manifest's (independent decoder) - not an error, a panic or bytes; get_pack(id > max) is None; check() is Ok(true). Non-trivial = a scenario with at least one pack unavailable and one available, both holding contents that are read; distinct by (packaging, pack count, subset, kind). Fixed cases 'alternative packs': two content packs declared under ONE id (spec/manifest.rst: the one declared first has priority) next to two ordinary packs, 4 declaration orders, every subset of the four pack files removed: while the first-declared pack is available its bytes are served; without it the answer is MISSING describing it (or the alternative's bytes); ordinary packs read or are MISSING as usual; check() is Ok(true).".into()
     }
 
     fn cases(tier: Tier) -> u32 {
